@@ -996,6 +996,10 @@ def _apply_proj(e, proj, fn, seen, depth):
                     e = ("bin", e[1][:-len("WithOverflow")], e[2], e[3])
                 else:
                     e = ("ovf", e)
+            elif name in ("0", "1") and e[0] == "field" and e[2] == "0" and e[1][0] == "as" and e[1][2] == "Some" and e[1][1][0] == "call" \
+                    and e[1][1][1] == "core::option::Option::<T>::zip" and len(e[1][1][2]) == 2:
+                # `a.zip(b)` is Some((x, y)) exactly when a is Some(x) and b is Some(y): a component of the pair is that payload
+                e = ("field", ("as", e[1][1][2][int(name)], "Some"), "0")
             else:
                 e = ("field", e, name)
         elif "as" in p and p["as"] == "Continue" and e[0] == "call" and e[1] == "core::ops::try_trait::Try::branch" and e[2] \
